@@ -218,6 +218,13 @@ func (s *Server) ServeHTTP(w http.ResponseWriter, r *http.Request) {
 			return
 		}
 
+		// A long-polling session is polled with GET and fed with POST: anything else is refused
+		// with the protocol's error instead of being answered 200 with nothing.
+		if n == "polling" && r.Method != "GET" && r.Method != "POST" {
+			writeServerError(w, ErrorBadRequest)
+			return
+		}
+
 		t.ServeHTTP(w, r)
 	}
 }
